@@ -484,7 +484,9 @@ func Exec(t *testing.T, sc Scenario, r *evid.Run) *evid.Failure {
 			// requests wait for NSTART like any other) is not decided by the rules about the original
 			continue
 		}
-		if wrapped(sc) && resp.t > o.at && strings.Contains(o.err.Error(), "connection was closed") {
+		if wrapped(sc) && resp.t >= o.at-time.Millisecond && strings.Contains(o.err.Error(), "connection was closed") {
+			// (a response handed to the link at the very instant the connection closed itself counts as
+			// delivered after it: the order of two events of one virtual instant is the scheduler's)
 			// After a wrap-around a confirmable message the library originates itself (a response to a
 			// non-confirmable message of the peer) may draw the ID of a pending request; the library
 			// refuses it, and a connection that cannot write a response closes itself - a policy of
